@@ -175,7 +175,10 @@ func (w *Worker) Exec(bin string, s *Spec, timeout time.Duration) (*Result, erro
 	}
 	ctx, cancel := context.WithTimeout(context.Background(), timeout)
 	defer cancel()
-	cmd := exec.CommandContext(ctx, bin, args...)
+	// every gocc process runs under an address-space limit: a change that makes gocc
+	// blow up must not take the machine down with it
+	shArgs := append([]string{"-c", "ulimit -v 8388608; exec \"$0\" \"$@\"", bin}, args...)
+	cmd := exec.CommandContext(ctx, "/bin/sh", shArgs...)
 	cmd.Dir = cwd
 	cmd.Env = env
 	var so, se bytes.Buffer
